@@ -67,6 +67,32 @@ def truncated_digests(chk):
         raise vp.Machinery("vacuous run: the truncated-digest sweeps did not run (%s)" % st.get("by_op"))
 
 
+def own_rounds(chk):
+    """Convergence when the exchanges are the ones the code starts itself (gossipRound's own choice of peers):
+    four nodes, converged, then split 2|2 by mutual suspicion (every node still has a live peer on its own
+    side), more updates on both sides, 30 periods in which every node runs its periodic round and every
+    exchange it starts is carried out in full; TLC checks exact equality of every live pair at the end.
+    A second behaviour does the same with one node suspected by everybody and a third without suspicion."""
+    nodes = ["a", "b", "c", "d"]
+    behs = []
+    for split in ([("a", "c"), ("a", "d"), ("b", "c"), ("b", "d")], [("a", "d"), ("b", "d"), ("c", "d")], []):
+        beh = []
+        for n in nodes:
+            beh.append(["UpsertLocal", n, "k1", "v-" + n])
+        beh.append(["Closure", -1, 30])
+        for x, y in split:
+            beh += [["SetSuspect", x, y, True], ["SetSuspect", y, x, True]]
+        for n in nodes:
+            beh.append(["UpdateLiveness", n])
+        beh += [["UpsertLocal", "a", "k2", "late-a"], ["UpsertLocal", "c", "k2", "late-c"], ["DeleteLocal", "d", "k1"],
+                ["AutoRounds", 30]]
+        behs.append(beh)
+    sched = {"nodes": nodes, "initKnown": True, "behaviours": behs}
+    v, st = run_schedules(chk, sched, "own-rounds", nodes, invariants=C03_TRACE_INV)
+    if st.get("by_op", {}).get("ClosureEnd", 0) != 2 * len(behs) or st.get("by_op", {}).get("GossipRound", 0) == 0:
+        raise vp.Machinery("vacuous run: the periodic rounds did not run (%s)" % st.get("by_op"))
+
+
 @prop("C03")
 def c03(chk):
     quick = chk.tier == "quick"
@@ -74,7 +100,10 @@ def c03(chk):
                 "datagram's delivery, with truncating budgets, compaction and prior loss, no state constraint; "
                 "(2) from the diverged state at the end of every seeded random schedule (loss, truncation, "
                 "duplication, compaction, 4 nodes) the real nodes run fair sweeps until a sweep changes nothing; "
-                "TLC checks PullProgress on every delivered delta and exact equality of every live pair at the end")
+                "TLC checks PullProgress on every delivered delta and exact equality of every live pair at the end; "
+                "(3) the same from nodes that first join each other over the stream; (4) packets too small for "
+                "the digest; (5) exchanges chosen by the code's own periodic round, incl. a 2|2 split by mutual "
+                "suspicion")
     chk.assumptions = ["every entry fits the maximum packet size (otherwise known finding F3)",
                        "fair closure = all ordered pairs round-robin, no loss (a network that eventually delivers)"]
     base = G.consts(Features={"compact", "lose"}, Budgets={2, 99})
@@ -107,5 +136,13 @@ def c03(chk):
     for need in ("ClosureEnd", "RecvDelta", "CompactLocal"):
         if ops.get(need, 0) == 0:
             raise vp.Machinery("vacuous run: the real code never executed " + need)
+    # nodes that do not know each other: they join over the stream (the joiner already has state of its own), then
+    # the same closures
+    schedj = dict(sched, initKnown=False, streams=True, walks=60 if quick else 1500, depth=50)
+    v, st3 = run_schedules(chk, schedj, "closures-join", schedj["nodes"], invariants=C03_TRACE_INV)
+    chk.nontrivial += st3["steps"] - st3["by_op"].get("Reset", 0)
+    if st3["by_op"].get("JoinStream", 0) == 0 or st3["by_op"].get("ClosureEnd", 0) == 0:
+        raise vp.Machinery("vacuous run: no join closures (%s)" % st3["by_op"])
     truncated_digests(chk)
+    own_rounds(chk)
     f3_known(chk)
